@@ -112,14 +112,15 @@ impl SupportedScalar {
             SupportedScalar::I16(i) => lhs.equal_with_int(*i as i64),
             SupportedScalar::I32(i) => lhs.equal_with_int(*i as i64),
             SupportedScalar::I64(i) => lhs.equal_with_int(*i),
-            SupportedScalar::I128(i) => lhs.equal_with_int(*i as i64),
+            // a literal is an i64: a wider value equals it only if it fits
+            SupportedScalar::I128(i) => i64::try_from(*i).is_ok_and(|i| lhs.equal_with_int(i)),
             SupportedScalar::Isize(i) => lhs.equal_with_int(*i as i64),
             SupportedScalar::U8(u) => lhs.equal_with_int(*u as i64),
             SupportedScalar::U16(u) => lhs.equal_with_int(*u as i64),
             SupportedScalar::U32(u) => lhs.equal_with_int(*u as i64),
-            SupportedScalar::U64(u) => lhs.equal_with_int(*u as i64),
-            SupportedScalar::U128(u) => lhs.equal_with_int(*u as i64),
-            SupportedScalar::Usize(u) => lhs.equal_with_int(*u as i64),
+            SupportedScalar::U64(u) => i64::try_from(*u).is_ok_and(|u| lhs.equal_with_int(u)),
+            SupportedScalar::U128(u) => i64::try_from(*u).is_ok_and(|u| lhs.equal_with_int(u)),
+            SupportedScalar::Usize(u) => i64::try_from(*u).is_ok_and(|u| lhs.equal_with_int(u)),
             SupportedScalar::F32(f) => lhs.equal_with_float(*f as f64),
             SupportedScalar::F64(f) => lhs.equal_with_float(*f),
             SupportedScalar::Bool(b) => lhs.equal_with_bool(*b),
